@@ -321,8 +321,21 @@ fn builder_door(case: &Value, native: bool) -> Value {
             Ok(lm) => lm,
             Err(e) => return with_lm(fail("linearization_error", e.to_string()), None, mj),
         };
+        // door M: the same builder through the MicroLP solver object instead of the automatic choice
+        let micro = if native {
+            json!({})
+        } else {
+            match mb.clone().solve_with(rooc::Microlp::new()) {
+                Err(rooc::BuilderError::Solver(e)) => solver_err(&e),
+                Err(e) => fail("linearization_error", e.to_string()),
+                Ok(sol) => {
+                    let byname: Vec<(String, Option<f64>)> = order.iter().map(|(n, _)| (n.clone(), sol.solution().value_of(n).map(|x| x.into()))).collect();
+                    json!({"out":"solution","kind":"","point":point_json(&byname),"value":num_obs(sol.value())})
+                }
+            }
+        };
         let res = mb.solve_with(Auto);
-        let out = match res {
+        let mut out = match res {
             Err(rooc::BuilderError::Solver(e)) => solver_err(&e),
             Err(e) => fail("linearization_error", e.to_string()),
             Ok(sol) => {
@@ -342,6 +355,7 @@ fn builder_door(case: &Value, native: bool) -> Value {
                        "value":num_obs(sol.value()),"eval_obj":num_obs(eval_obj),"evals":evals,"probes":probes})
             }
         };
+        out["microlp"] = micro;
         with_lm(out, Some(&lm), mj)
     }))
     .unwrap_or_else(|_| with_lm(fail("panic", String::new()), None, None))
@@ -353,6 +367,11 @@ pub fn doors_event(case: &Value) -> Value {
                         "illtyped": case.get("illtyped").and_then(|v| v.as_bool()).unwrap_or(false)});
     // ---- B / N: builder (all-Expr operands; native overloads + macros) ----------
     ev["B"] = builder_door(case, false);
+    // (a builder door that failed before solving has no MicroLP answer either: same failure)
+    ev["M"] = match ev["B"].get("microlp") {
+        Some(m) if m.get("out").is_some() => m.clone(),
+        _ => json!({"out": ev["B"]["out"], "kind": ev["B"]["kind"], "point": [], "value": num_obs(0.0)}),
+    };
     ev["N"] = builder_door(case, true);
     // ---- T / K: text through parser + linearizer + auto_solver ---------------------
     let text_door = |src: &str, constants: Vec<rooc::Constant>| {
